@@ -183,6 +183,10 @@ def inject_loop_contracts(body, contracts, nloops):
             raise ExtractionBreak('loop ordinal %d out of range' % ordn)
         kind, pos = loops[ordn - 1]
         body = body[:pos] + '\n' + contracts[ordn].strip() + '\n' + body[pos:]
+        # cbmc 6.11 silently drops a loop contract attached to `for (;;)`; `while (1)` is the same loop
+        head = re.search(r'for\s*\(\s*;\s*;\s*\)\s*$', body[:pos])
+        if kind == 'for' and head:
+            body = body[:head.start()] + 'while (1)' + body[pos:]
     return body
 
 
